@@ -25,6 +25,49 @@ type verdictLine struct {
 // accumulates violated clauses per trace and prints one "VERDICT {json}" line at each End event.
 // If TLC cannot consume the whole file the judge itself is broken for this input => error (exit 2).
 func Judge(p *Property, env *Env, traces []*Trace) ([]Violation, *TLCResult, error) {
+	if p.JudgeFor == nil {
+		return judgeWith(p, env, traces, p.JudgeModule, p.JudgeCfg)
+	}
+	type grp struct {
+		mod, cfg string
+		ts       []*Trace
+	}
+	var order []string
+	groups := map[string]*grp{}
+	for _, t := range traces {
+		m, c := p.JudgeFor(t)
+		if m == "" {
+			m, c = p.JudgeModule, p.JudgeCfg
+		}
+		g := groups[m+"/"+c]
+		if g == nil {
+			g = &grp{mod: m, cfg: c}
+			groups[m+"/"+c] = g
+			order = append(order, m+"/"+c)
+		}
+		g.ts = append(g.ts, t)
+	}
+	var all []Violation
+	var last *TLCResult
+	for _, k := range order {
+		g := groups[k]
+		v, r, err := judgeWith(p, env, g.ts, g.mod, g.cfg)
+		if r != nil {
+			if last != nil {
+				r.Distinct += last.Distinct
+				r.Generated += last.Generated
+			}
+			last = r
+		}
+		if err != nil {
+			return nil, last, err
+		}
+		all = append(all, v...)
+	}
+	return all, last, nil
+}
+
+func judgeWith(p *Property, env *Env, traces []*Trace, module, cfg string) ([]Violation, *TLCResult, error) {
 	var buf bytes.Buffer
 	n := 0
 	for _, t := range traces {
@@ -51,7 +94,7 @@ func Judge(p *Property, env *Env, traces []*Trace) ([]Violation, *TLCResult, err
 			files[k] = v
 		}
 	}
-	job := TLCJob{Name: "judge", Module: p.JudgeModule, Cfg: p.JudgeCfg, Workers: 1, Files: files,
+	job := TLCJob{Name: "judge:" + module, Module: module, Cfg: cfg, Workers: 1, Files: files,
 		Timeout: 20 * time.Minute, Heap: "8g"}
 	r, err := RunTLC(job)
 	if err != nil {
